@@ -43,6 +43,8 @@ type dataRule struct {
 	shard    *models.Shard
 	nSlices  int
 	perSlice int
+	// inRange, when set, tells independently of the router whether a key lies inside the configured ranges / periods
+	inRange func(v sqlmini.Value) bool
 }
 
 func ints(xs ...int64) []sqlmini.Value {
@@ -99,6 +101,7 @@ func drawRule(tp *simkit.Tape) *dataRule {
 		sh.TableRowLimit = int(lim)
 		top := lim * int64(total)
 		d.keys = ints(0, 1, lim-1, lim, lim+1, 2*lim-1, 2*lim, top/2, top-1, top, top+1, top+lim, 50, 150, 250, 5)
+		d.inRange = func(v sqlmini.Value) bool { return !v.Null && !v.IsS && v.I >= 0 && v.I < top }
 	case "date_year":
 		d.key, sh.Key, sh.Locations = "ct", "ct", nil
 		ranges := []string{"2014-2015", "2017-2018", "2020-2020"}[:nS]
@@ -143,6 +146,32 @@ func drawRule(tp *simkit.Tape) *dataRule {
 			d.keys = ints(append(small, 15, 16, 17, 255, 256, 1000003, 2147483647)...)
 		}
 	}
+	if len(sh.DateRange) > 0 {
+		// periods as numbers of the key's leading digits: 2014 / 201405 / 20140901
+		digits := map[string]int{"date_year": 4, "date_month": 6, "date_day": 8}[typ]
+		var spans [][2]int
+		for _, r := range sh.DateRange {
+			lo, hi, _ := strings.Cut(r, "-")
+			a, _ := strconv.Atoi(lo)
+			b, _ := strconv.Atoi(hi)
+			spans = append(spans, [2]int{a, b})
+		}
+		d.inRange = func(v sqlmini.Value) bool {
+			if v.Null || !v.IsS || len(v.S) < 10 {
+				return false
+			}
+			n, err := strconv.Atoi(strings.ReplaceAll(v.S[:10], "-", "")[:digits])
+			if err != nil {
+				return false
+			}
+			for _, sp := range spans {
+				if n >= sp[0] && n <= sp[1] {
+					return true
+				}
+			}
+			return false
+		}
+	}
 	d.shard = sh
 	return d
 }
@@ -167,12 +196,29 @@ type dataWorld struct {
 	other    int             // violations of other properties seen (ignored by this check)
 	stop     bool            // such a violation may have made shards and reference diverge: the run ends quietly
 	finding  string          // known-finding predicate the violation about to be reported satisfies
+	// breakInsertOn: backend address whose connection is reset when the next INSERT arrives there (one shot)
+	breakInsertOn string
+	faulted       bool
+	sessDB        string   // the session's current database
+	gcopies       []string // database names of the global table's copies (mycat style), nil = one copy per slice
 }
 
 func classifyData(r *simkit.Run) {
 	if d, ok := r.World.(*dataWorld); ok && r.Viol != nil {
 		r.Viol.Finding = d.finding
 	}
+}
+
+func (d *dataWorld) useDB(db string) {
+	if d.sessDB == db {
+		return
+	}
+	if err := d.c.UseDB(db); err != nil {
+		d.fail("harness", "use %s: %v", db, err)
+		return
+	}
+	d.sessDB = db
+	d.r.Logf("use %s", db)
 }
 
 // fail reports a violation of clause if it belongs to the property under check; other properties' clauses are logged only.
@@ -414,7 +460,7 @@ func lit(v sqlmini.Value) string {
 	return strconv.FormatInt(v.I, 10)
 }
 
-var dataNames = []string{"a", "b", "a+", "+b", "NULL", "a b", "x,y", "", "zz", "a|b"}
+var dataNames = []string{"a", "b", "a+", "+b", "NULL", "a b", "x,y", "", "zz", "a|b", "9", "100", "10"}
 
 // newRow draws a row for a key of the sharded table.
 func (d *dataWorld) newRow(tp *simkit.Tape, key sqlmini.Value) []sqlmini.Value {
@@ -483,6 +529,8 @@ func runData(r *simkit.Run, prop string) {
 	tp := r.Tape
 	rule := drawRule(tp)
 	ns := baseNamespace("ns1", rule.nSlices, 0)
+	ns.AllowedDBS["db3"] = true // a database without shard rules whose physical name is its own (db2 maps to db2_phy)
+	ns.DefaultPhyDBS["db3"] = "db3"
 	ns.AllowedDBS["db_mycat"] = true
 	ns.DefaultPhyDBS["db_mycat"] = "db_mycat_0"
 	ns.ShardRules = []*models.Shard{rule.shard}
@@ -496,6 +544,21 @@ func runData(r *simkit.Run, prop string) {
 		if rule.mycat {
 			g.Databases = rule.shard.Databases
 			g.Locations = locs(rule.nSlices, rule.perSlice)
+			if total := len(g.Databases); total > 1 && tp.Chance(1, 2) {
+				// copies on the first m databases only: not every slice holds one
+				m := tp.Range(1, total-1)
+				g.Databases = g.Databases[:m]
+				g.Slices, g.Locations = nil, nil
+				for i := 0; i*rule.perSlice < m; i++ {
+					g.Slices = append(g.Slices, fmt.Sprintf("slice-%d", i))
+					n := rule.perSlice
+					if (i+1)*rule.perSlice > m {
+						n = m - i*rule.perSlice
+					}
+					g.Locations = append(g.Locations, n)
+				}
+			}
+			d.gcopies = g.Databases
 		}
 		ns.ShardRules = append(ns.ShardRules, g)
 	}
@@ -507,6 +570,14 @@ func runData(r *simkit.Run, prop string) {
 	d.w = w
 	w.Cl.Logf = r.Logf
 	w.Cl.Exec = d.exec
+	w.Cl.Fault = func(c *mysim.Conn, st *mysim.Stmt) *mysim.FaultAction {
+		if d.breakInsertOn != "" && c.B.Addr == d.breakInsertOn && st.Kind == "insert" {
+			d.breakInsertOn = ""
+			r.Fault("backend-connection-reset-during-insert")
+			return &mysim.FaultAction{Reset: true}
+		}
+		return nil
+	}
 	r.SetSiteDensity(0, 0)
 	cfg := fmt.Sprintf("rule=%s slices=%d perSlice=%d global=%v", rule.typ, rule.nSlices, rule.perSlice, d.global != "")
 	r.Logf("config %s shard=%+v", cfg, *rule.shard)
@@ -532,6 +603,7 @@ func runData(r *simkit.Run, prop string) {
 			return
 		}
 		d.c = c
+		d.sessDB = rule.db
 		if !d.populate(tp, stats) {
 			return
 		}
@@ -541,7 +613,24 @@ func runData(r *simkit.Run, prop string) {
 				d.fail("harness", "connection lost")
 				return
 			}
-			switch k := tp.Choose(10); {
+			if tp.Chance(1, 6) {
+				// the session moves to a database without shard rules, or back
+				to := []string{"db2", "db3"}[tp.Choose(2)]
+				if d.sessDB != rule.db {
+					to = rule.db
+				}
+				d.useDB(to)
+				stats["session-database-switched"]++
+			}
+			k := tp.Choose(10)
+			if d.sessDB != rule.db {
+				// from the other database only statements with qualified names make sense: global table or fast-path probes
+				k = 9
+				if d.global != "" && tp.Chance(1, 3) {
+					k = 8
+				}
+			}
+			switch {
 			case k <= 4:
 				d.opSelect(tp, stats)
 			case k <= 6:
@@ -552,6 +641,9 @@ func runData(r *simkit.Run, prop string) {
 				d.opGlobal(tp, stats)
 			default:
 				d.opFastPath(tp, stats)
+			}
+			if d.sessDB != rule.db && tp.Chance(1, 2) {
+				d.useDB(rule.db)
 			}
 		}
 		if !d.c.Dead {
